@@ -5,6 +5,7 @@ package main
 
 import (
 	"context"
+	"encoding/json"
 	"fmt"
 	"runtime/debug"
 	"strings"
@@ -222,6 +223,35 @@ type scriptRT struct {
 	delay     time.Duration
 	cancelAt  int64
 	waitCount map[[2]int]int // (node, item) -> failed exec attempts so far = waits scripted so far
+	kept      []retained
+}
+
+// retain keeps the very slices a batch post was handed, with what they held then: the engine must
+// not write into them afterwards (a later run of the node has lists of its own)
+type retained struct {
+	items, results []flyt.Result
+	was            string
+}
+
+func (s *scriptRT) retain(items, results []flyt.Result) {
+	b, _ := json.Marshal([2][]Val{s.w.encodeList(items), s.w.encodeList(results)})
+	s.mu.Lock()
+	s.kept = append(s.kept, retained{items: items, results: results, was: string(b)})
+	s.mu.Unlock()
+}
+
+// changedLists: has any list handed to an earlier post call been changed since?
+func (s *scriptRT) changedLists() bool {
+	s.mu.Lock()
+	kept := append([]retained{}, s.kept...)
+	s.mu.Unlock()
+	for _, k := range kept {
+		b, _ := json.Marshal([2][]Val{s.w.encodeList(k.items), s.w.encodeList(k.results)})
+		if string(b) != k.was {
+			return true
+		}
+	}
+	return false
 }
 
 func (s *scriptRT) now() int64 {
@@ -483,6 +513,7 @@ func (h *hnode) post(shared *flyt.SharedStore, p, x any) Resp {
 	return h.rt.respond(Call{K: "post", N: h.id, St: &st, P: &pv, X: &xv}, "post", 0)
 }
 func (h *hnode) bpost(shared *flyt.SharedStore, items, results []flyt.Result) Resp {
+	h.rt.retain(items, results)
 	st := h.rt.w.encode(shared)
 	if shared == h.rt.w.store {
 		h.rt.w.noteCallback(shared)
@@ -935,6 +966,9 @@ func runEngine(sc EScen) (obs EObs) {
 			r.Timeout = true
 		}
 		r.Trace = rt.takeTrace()
+		if r.Panic == "" && rt.changedLists() {
+			r.Panic = "a list of items / results handed to an earlier post call was changed afterwards"
+		}
 		if len(r.Trace) >= runawayEvents {
 			r.Trace = r.Trace[:runawayEvents]
 			r.Timeout = true
